@@ -112,10 +112,10 @@ Print Assumptions C14_tick_applies_per_entry.
    model/ReobsLoop.v feeds the [ObsReq chain tx] output of this tick through PostObservationRequest / obsvReqSendC, p2p's request
    goroutine (local delivery + signed publication), the dispatcher (C17), an oracle for the watchers' re-observation paths (C08 / C10)
    and back into the processor's handle_message, on ONE clock; see props/C17.v for the vocabulary and the dispatcher-side theorems
-   (cadence bound 23 min 30 s, at most one forward per 11 min, network hop).  [pending_at st h c tx]: the entry of digest h is a signed,
+   (projection, at most one forward per 11 min whatever peers gossip, network hop); the cadence bound of 23 min 30 s is below.  [pending_at st h c tx]: the entry of digest h is a signed,
    unsubmitted, settled entry with budget left, no quorum VAA stored, at least five minutes old; c / tx = what its request carries.
    [lretried st h]: the cleanup step taken in st retries that entry. *)
-From WH Require Import gen.ExtractedWiring model.ProcSpec model.ReobsLoop proofs.ProcC02Proofs proofs.SystemLiveProofs proofs.ReobsLoopProofs.
+From WH Require Import gen.ExtractedWiring gen.ExtractedP2P model.ProcSpec model.ReobsLoop proofs.ProcC02Proofs proofs.SystemLiveProofs proofs.ReobsLoopBase proofs.ReobsLoopProofs proofs.ReobsLoopExamples.
 
 (* the cleanup step of the composition IS this model's tick evaluated at the node's clock reading: per entry [cleanup_entry]; the
    tick's outputs are in the trace; every request it emits is posted to obsvReqSendC (queued, or ErrChanFull recorded) *)
@@ -253,23 +253,29 @@ Theorem C14_loop_watcher_answer_is_signed :
           (l_proc st0) (pops (snd (lrun st0 (H1 ++ LWatch c :: H2)))).
 Proof. exact loop_watch_observes. Qed.
 
-(* ---------------------------------------------------------------- computed: a node that missed the message recovers through the loop *)
-Definition rx_own : addr := repeat x01 20.
-Definition rx_recover (h s : bytes) : option bytes := Some (firstn 20 s).
-Definition rx_keccak (b : bytes) : bytes := repeat x00 32.
-Definition rx_sign (d : bytes) : bytes := rx_own ++ repeat x00 45.
-Definition rx_msg : msgpub := {| m_tx := [x07]; m_ts := 1700000000; m_tns := 0; m_nonce := 1; m_seq := 5; m_cl := 1;
-                                 m_echain := 2; m_tchain := 255; m_eaddr := repeat x02 32; m_payload := [x01; x02] |}.
-Definition rx_peer : addr := repeat x03 20.
-Definition rx_G : gset := {| keys := [rx_own; rx_peer] ; gidx := 3 |}.
-Definition rx_watch (c : Z) (r : Reobserve.req) (t : Z) : list msgpub := if (c =? 2) && bytes_eqb (Reobserve.r_tx r) [x07] then [rx_msg] else [].
-Definition rx_run := lrun rx_recover rx_keccak rx_sign rx_own 1 (repeat x00 32) (fun _ => None) (fun _ => None) (fun _ => []) [x09] false rx_watch.
+(* the network hop: what node i's request goroutine publishes for r is on the wire, and when the network delivers it to node j
+   (relayed by any peer but j itself), j's receive loop verifies it against j's guardian set and j's dispatcher handles [Req r] at j's
+   clock reading - provided i is a member of that set, i's signer is consistent with recovery, the request is decodable and not below
+   the verifier's length floor *)
+Theorem C14_loop_request_reaches_every_peer :
+  forall recover keccak gov_chain gov_addr decode_hb decodeq encq disable owns signs selfs watches n i j from k r stj Gk,
+  nth_error (x_nodes n) j = Some stj ->
+  nth_error (x_pool n) k = Some (WReq (owns i) (encq r) (signs i (keccak (p2p_req_preimage (encq r))))) ->
+  P2PVerify.n_gs (l_p2p stj) = Some Gk -> In (owns i) Gk -> bytes_to_address (owns i) = owns i -> from <> selfs j ->
+  decodeq (encq r) = Some r -> p2p_req_too_short (Z.of_nat (length (encq r))) = false ->
+  P2PVerify.prec recover (keccak (p2p_req_preimage (encq r))) (signs i (keccak (p2p_req_preimage (encq r)))) = Some (owns i) ->
+  In (l_now stj, EDisp (l_disp stj) (Reobserve.Req r (l_now stj)) (snd (Reobserve.step (l_disp stj) (Reobserve.Req r (l_now stj)))))
+     (snd (lnstep recover keccak gov_chain gov_addr decode_hb decodeq encq disable owns signs selfs watches n (XDeliver j from k))).
+Proof. exact lnet_request_reaches_peer. Qed.
+
+Theorem C14_loop_published_request_is_on_the_wire : forall keccak encq owns signs i u r evs, In (u, EPub r) evs ->
+  In (WReq (owns i) (encq r) (signs i (keccak (p2p_req_preimage (encq r))))) (flat_map (wire_of keccak encq owns signs i) evs).
+Proof. exact published_on_wire. Qed.
+
+
+(* ---------------------------------------------------------------- computed: a node that missed the message recovers through the loop - definitions rx_* in proofs/ReobsLoopExamples.v *)
 (* the node learns the set; a request for transaction 07 on chain 2 arrives (here: posted locally and pumped), is forwarded; the
    watcher answers with the message; the peer's observation arrives by gossip; the own signature loops back: published *)
-Definition rx_H0 : list lop := [LEnv (VSetGS rx_G)].
-Definition rx_H : list lop :=
-  [LClock 1000; LAdmin {| Reobserve.r_chain := 2; Reobserve.r_tx := [x07] |}; LPump; LWatch 2;
-   LGossip [x05] (P2PVerify.MObservation {| o_addr := rx_peer; o_hash := repeat x00 32; o_sig := rx_peer ++ repeat x00 45; o_tx := [x07] |}); LEnv (VLoop 0)].
 Example C14_loop_recovery_computed :
   let st0 := fst (rx_run linit rx_H0) in let tr := snd (rx_run st0 rx_H) in
   map (fun e => match snd e with EDisp _ _ x => x | _ => Reobserve.Purged end) (filter (fun e => match snd e with EDisp _ _ _ => true | _ => false end) tr)
@@ -277,7 +283,62 @@ Example C14_loop_recovery_computed :
   existsb (fun e => match snd e with EWatch 2 _ [m] => true | _ => false end) tr = true /\
   existsb (fun e => match snd e with EProc (Loopback 0) outs => existsb is_bcast outs | _ => false end) tr = true /\
   forallb calm (pops tr) = true /\ alookup (repeat x00 32) (agg (l_proc st0)) = None /\ cur (l_proc st0) = Some rx_G.
-Proof. vm_compute. repeat split; reflexivity. Qed.
+Proof. exact ex_recovery_computed. Qed.
+
+(* (a) CADENCE of the loop, upper bound B = window + purge period + retry period + cleanup ticker period = 23 min 30 s (all four
+   extracted).  From any state reached with the invariant (the initial state is one), over any continuation with monotone clock, for
+   any instant t: if the message of digest h (emitter chain c, transaction tx) is pending - signed, not submitted, settled, budget
+   not spent, no quorum VAA stored, five minutes old - at every cleanup tick in (t, t + B], a purge tick falls in (t + 11, t + 18 min],
+   cleanup ticks come at most 30 s apart in (t + 11, t + 23 min], p2p's request goroutine keeps up, and neither obsvReqSendC nor the
+   watcher queue of chain c overflows, then the watcher of chain c receives a request for tx at some instant in (t, t + B] *)
+Theorem C14_loop_cadence :
+  forall recover keccak sign own gov_chain gov_addr decode_hb decodeq encq self disable watch H st0 h c tx t,
+  let lrun := lrun recover keccak sign own gov_chain gov_addr decode_hb decodeq encq self disable watch in
+  let lstates := lstates recover keccak sign own gov_chain gov_addr decode_hb decodeq encq self disable watch in
+  LInv st0 -> ReobserveProofs.cache_wf (l_disp st0) -> ReobserveProofs.known (l_disp st0) (c mod 65536) ->
+  (forall t', In (key_of_msg c tx, t') (Reobserve.cache (l_disp st0)) -> t' <= t) ->
+  lmono (l_now st0) H -> l_now st0 <= t ->
+  (forall s, In (s, LCleanup) (lstates st0 H) -> t < l_now s <= t + loop_bound -> pending_at s h c tx) ->
+  (exists s, In (s, LPurge) (lstates st0 H) /\ t + reobs_window < l_now s <= t + reobs_window + reobs_period) ->
+  (forall a, t + reobs_window < a <= t + reobs_window + reobs_period + proc_retry_ns ->
+     exists s, In (s, LCleanup) (lstates st0 H) /\ a < l_now s <= a + proc_tick_ns) ->
+  drained recover keccak sign own gov_chain gov_addr decode_hb decodeq encq self disable watch st0 H ->
+  (forall u r, ~ In (u, EPost r Reobserve.PostErrChanFull) (snd (lrun st0 H))) ->
+  (forall u s r f, Reobserve.key_of r = key_of_msg c tx -> ~ In (u, EDisp s (Reobserve.Req r f) Reobserve.DropFull) (snd (lrun st0 H))) ->
+  exists u s r f x, In (u, EDisp s (Reobserve.Req r f) (Reobserve.Forward x)) (snd (lrun st0 H)) /\
+    Reobserve.key_of r = key_of_msg c tx /\ t < f <= t + loop_bound.
+Proof. exact loop_forward_within. Qed.
+
+Theorem C14_loop_bound_is_23_min_30_s : loop_bound = reobs_window + reobs_period + proc_retry_ns + proc_tick_ns /\ loop_bound = 1410 * 10 ^ 9.
+Proof. split; [reflexivity|exact loop_bound_value]. Qed.
+
+
+(* ---------------------------------------------------------------- a computed history of the composed node (toy crypto oracles; definitions lx_* and
+   the evaluations in proofs/ReobsLoopExamples.v): two guardians (the node alone never has quorum), one chain-2 message of transaction 07,
+   then every 30 s the clock, the purge ticker at multiples of 7 min, the cleanup ticker, p2p's request goroutine, the watcher *)
+(* THE NAIVE EXPECTATION "a re-observation every five minutes" IS FALSE FOR THE COMPOSITION: the pending message is retried every
+   5 minutes for an hour (12 requests), the watcher sees 3 of them: at 5, 25 and 45 minutes (gaps of 20 min <= B = 23.5 min) *)
+Example C14_loop_every_five_minutes_is_false :
+  lx_requests (snd (lx_run linit lx_H)) =
+  [(300, 0); (600, 1); (900, 1); (1200, 1); (1500, 0); (1800, 1); (2100, 1); (2400, 1); (2700, 0); (3000, 1); (3300, 1); (3600, 1)].
+Proof. exact ex_every_five_minutes_is_false. Qed.
+
+(* the hypotheses of C14_loop_cadence hold for that history with t = 5 min (first forward): invariant, empty cache, monotone clock,
+   pending at every cleanup tick in (5 min, 28.5 min], the purge tick at 21 min, a cleanup tick every 30 s, request goroutine keeping
+   up, no overflow - and the conclusion: a forward in (5 min, 28.5 min] (it is the one at 25 min) *)
+Example C14_loop_cadence_hypotheses_satisfiable :
+  let t := 300 * lx_sec in
+  LInv linit /\ ReobserveProofs.cache_wf (l_disp linit) /\ ReobserveProofs.known (l_disp linit) (2 mod 65536) /\
+  lmono (l_now linit) lx_H2 /\ l_now linit <= t /\
+  (forall s, In (s, LCleanup) (lx_states linit lx_H2) -> t < l_now s <= t + loop_bound -> pending_at s lx_h 2 [x07]) /\
+  (exists s, In (s, LPurge) (lx_states linit lx_H2) /\ t + reobs_window < l_now s <= t + reobs_window + reobs_period) /\
+  (forall a, t + reobs_window < a <= t + reobs_window + reobs_period + proc_retry_ns ->
+     exists s, In (s, LCleanup) (lx_states linit lx_H2) /\ a < l_now s <= a + proc_tick_ns) /\
+  drained lx_recover lx_keccak lx_sign lx_own 1 (repeat x00 32) (fun _ => None) (fun _ => None) (fun _ => []) [x09] false (fun _ _ _ => []) linit lx_H2 /\
+  (forall u r, ~ In (u, EPost r Reobserve.PostErrChanFull) (snd (lx_run linit lx_H2))) /\
+  (forall u s r f, Reobserve.key_of r = key_of_msg 2 [x07] -> ~ In (u, EDisp s (Reobserve.Req r f) Reobserve.DropFull) (snd (lx_run linit lx_H2))) /\
+  exists u s r f x, In (u, EDisp s (Reobserve.Req r f) (Reobserve.Forward x)) (snd (lx_run linit lx_H2)) /\ Reobserve.key_of r = key_of_msg 2 [x07] /\ t < f <= t + loop_bound.
+Proof. exact ex_cadence_hypotheses_satisfiable. Qed.
 
 Print Assumptions C14_loop_cleanup_step_is_the_tick.
 Print Assumptions C14_loop_due_tick_retries.
@@ -294,3 +355,7 @@ Print Assumptions C14_loop_chain_message_never_publishes.
 Print Assumptions C14_loop_alephium_watcher_contract.
 Print Assumptions C14_loop_recovery.
 Print Assumptions C14_loop_watcher_answer_is_signed.
+Print Assumptions C14_loop_cadence.
+Print Assumptions C14_loop_bound_is_23_min_30_s.
+Print Assumptions C14_loop_request_reaches_every_peer.
+Print Assumptions C14_loop_published_request_is_on_the_wire.
